@@ -227,6 +227,15 @@ def exact_geobox(rng, Affine, GeoBox, kind, shape=None):
 def float_geobox(rng, Affine, GeoBox, kind):
     ny, nx = rng.choice([1, 2, 3, 7, 16, 33]), rng.choice([1, 2, 5, 9, 20, 41])
     crs = rng.choice(CRSS)
+    if rng.random() < 0.25 and kind in ("north-up", "mirrored"):
+        # near-integer lattice: resolutions / origins a hair away from integers and half-integers, small
+        # magnitudes, so that any "snap to integer within 1e-10" clean-up shows above the 1e-12 slack
+        eps = rng.choice([1e-6, 1e-9, 1e-10, 1e-11, 2.0 ** -40]) * rng.choice([1, -1])
+        r = rng.choice([1, 2, 30, 0.5]) + eps
+        tx = rng.choice([0, 3, -7, 0.5]) + rng.choice([1e-10, -1e-11, 1e-9, 0]) 
+        ty = rng.choice([0, 12, -1, 0.5]) + rng.choice([1e-10, -1e-11, 1e-9, 0])
+        sx = -1 if kind == "mirrored" else 1
+        return GeoBox((ny, nx), Affine(sx * r, 0, tx, 0, -r, ty), crs)
     if crs == "EPSG:4326":
         r = rng.choice([0.00025, 1 / 3, 0.1, 0.02, rng.uniform(1e-4, 1)])
         tx, ty = rng.uniform(-170, 150), rng.uniform(-60, 80)
@@ -338,7 +347,7 @@ def location_oracle(R: Run, g, xx, ops, dims, sizes, case, tag, exact):
                 px = max(abs(Fraction(v)) for v in tuple(g.affine)[:2] + tuple(g.affine)[3:5]) or 1
                 scale = max(abs(wx), abs(wy), px * max(g.shape), 1)
                 err = float(max(abs(gx - wx), abs(gy - wy)) / scale)
-                lim = 0.0 if exact else 1e-9
+                lim = 0.0 if exact else 1e-12
             if err > lim and err > worst:
                 worst, bad = err, (i, j, oi, oj, float(gx), float(gy), float(wx), float(wy))
     R.oracle(bad is None, key, case,
@@ -351,7 +360,7 @@ def location_oracle(R: Run, g, xx, ops, dims, sizes, case, tag, exact):
             rc = np.asarray(r.coords[dim].values, dtype="float64")
             scale = max(float(np.abs(lab).max()), 1.0)
             d = float(np.abs(lab - rc).max()) / scale
-            R.oracle(d <= (0.0 if exact else 1e-9), f"labels-agree|{cls}{one_px}", case,
+            R.oracle(d <= (0.0 if exact else 1e-12), f"labels-agree|{cls}{one_px}", case,
                      f"coordinates of the recovered geobox differ from the labels of {dim} by rel {d:.3g}")
     elif cls in ("rotated", "gcp"):
         for dim, ix in ((yd, idx[yd]), (xd, idx[xd])):
